@@ -355,7 +355,7 @@ Lemma step_row_headers s i :
 Proof.
   intros Ht Hi Hh. unfold step_row. rewrite Hi, Ht. cbn.
   unfold row_action. rewrite Ht. cbn.
-  unfold row_node. rewrite Ht. cbn. rewrite Hh. cbn.
+  unfold row_node, row_group_record. rewrite Ht. cbn. rewrite Hh. cbn.
   rewrite raise_logged_eq by in_list. reflexivity.
 Qed.
 
@@ -428,4 +428,163 @@ Proof.
       destruct (mapM (render_edge (f_ctx s)) l) as [es'|]; [|discriminate].
       injection Hes as <-. cbn. rewrite (IH es' eq_refl). reflexivity. }
   rewrite Hlen. exact H2.
+Qed.
+
+(* ---- edge from a row that does not exist *)
+Definition set_first_from (r : frow) (f : tstr) : frow :=
+  set_edges r (match r_edges r with e :: more => mkEdge f (e_cond e) :: more | [] => [] end).
+
+Definition iset_edges (i : irow) (es : list iedge) : irow :=
+  mkI (i_type i) (i_id i) es (i_inc i) (i_main i) (i_list i) (i_vars i) (i_save i) (i_objid i) (i_noresp i)
+      (i_url i) (i_headers i) (i_dsheet i) (i_drow i) (i_targs i).
+
+Lemma row_action_edges i es : row_action (iset_edges i es) = row_action i.
+Proof. destruct i. reflexivity. Qed.
+Lemma row_node_edges s i es : row_node s (iset_edges i es) = row_node s i.
+Proof. destruct i. reflexivity. Qed.
+
+Lemma row_group_record_ids s i s0 : row_group_record s i = Ok s0 -> f_ids s0 = f_ids s /\ f_stack s0 = f_stack s.
+Proof.
+  unfold row_group_record. intros H.
+  destruct (i_type i), (i_objid i); try (injection H as <-; split; reflexivity);
+    (destruct (i_list i); [unfold raise in H; destruct (site_raises EIndexErr); discriminate|]);
+    (destruct (record (f_uu s) _); [|discriminate]); injection H as <-; split; reflexivity.
+Qed.
+
+Lemma row_flow_record_ids s i s0 : row_flow_record s i = Ok s0 -> f_ids s0 = f_ids s /\ f_stack s0 = f_stack s.
+Proof.
+  unfold row_flow_record. intros H.
+  destruct (i_objid i); [injection H as <-; split; reflexivity|].
+  destruct (record (f_uu s) _); [|discriminate]. injection H as <-. split; reflexivity.
+Qed.
+
+Lemma row_node_ids s i s1 x : row_node s i = Ok (s1, x) -> f_ids s1 = f_ids s /\ f_stack s1 = f_stack s.
+Proof.
+  unfold row_node. intros H. cbn [bind] in H.
+  destruct (row_group_record s i) as [s0|e] eqn:Epre; [|discriminate].
+  destruct (row_group_record_ids _ _ _ Epre) as [Hids Hst].
+  destruct (i_type i); try discriminate;
+    try (injection H as <- <-; split; assumption).
+  - destruct (i_main i); [unfold raise in H; destruct (site_raises EValueErr); discriminate|].
+    injection H as <- <-. split; assumption.
+  - cbn [bind] in H.
+    destruct (row_flow_record s0 i) as [s2|e] eqn:Epre2; [|discriminate].
+    destruct (row_flow_record_ids _ _ _ Epre2) as [Hi2 Hk2].
+    destruct (i_main i); [unfold raise in H; destruct (site_raises EValueErr); discriminate|].
+    injection H as <- <-. cbn. split; congruence.
+  - destruct (negb (headers_ok (i_headers i))); [unfold raise_logged in H; destruct (site_raises EHeaders && site_stops EHeaders); discriminate|].
+    destruct (i_url i); [unfold raise in H; destruct (site_raises EValueErr); discriminate|].
+    destruct (i_save i); [unfold raise in H; destruct (site_raises EValueErr); discriminate|].
+    destruct (field_key EFieldKey false _); [|discriminate].
+    injection H as <- <-. split; assumption.
+Qed.
+
+Definition is_node_type (t : rtype) : bool :=
+  match t with
+  | TSend | TSaveValue | TSaveResult | TAddGroup | TRemoveGroup | TWait | TSplitValue | TSplitGroup
+  | TSplitRandom | TStartFlow | TWebhook => true
+  | _ => false
+  end.
+
+Lemma edge_source_unknown s e :
+  ie_from e <> [] -> str_eqb (ie_from e) s_start = false -> ids_get (f_ids s) (ie_from e) = None ->
+  edge_source s e = Err EEdgeUnknownRow.
+Proof.
+  intros H1 H2 H3. unfold edge_source. rewrite H2.
+  destruct (ie_from e) as [|c f]; [congruence|]. rewrite H3. rewrite crit_eq by in_list. reflexivity.
+Qed.
+
+(* a node row: what a successful step says *)
+Lemma step_row_node_inv s i s' :
+  is_node_type (i_type i) = true -> i_inc i = true -> step_row s i = Ok s' ->
+  row_action i = Ok tt /\ exists s1 x, row_node s i = Ok (s1, x).
+Proof.
+  intros Hn Hi H. unfold step_row in H. rewrite Hi in H. cbn [negb] in H.
+  destruct (i_type i) eqn:Ht; try discriminate; cbn [bind] in H;
+    (destruct (row_action i) as [[]|]; [|discriminate]);
+    (destruct (row_node s i) as [[s1 x]|]; [|discriminate]);
+    (split; [reflexivity|exists s1, x; reflexivity]).
+Qed.
+
+Lemma step_row_node_unknown s i e more s1 x :
+  is_node_type (i_type i) = true -> i_inc i = true -> i_edges i = e :: more ->
+  row_action i = Ok tt -> row_node s i = Ok (s1, x) ->
+  ie_from e <> [] -> str_eqb (ie_from e) s_start = false -> ids_get (f_ids s) (ie_from e) = None ->
+  step_row s i = Err EEdgeUnknownRow.
+Proof.
+  intros Hn Hi He Ha Hnode H1 H2 H3.
+  destruct (row_node_ids _ _ _ _ Hnode) as [Hids _].
+  unfold step_row. rewrite Hi. cbn [negb].
+  assert (Hedge : add_row_edge s1 e true = Err EEdgeUnknownRow).
+  { unfold add_row_edge. rewrite edge_source_unknown; [reflexivity|assumption|assumption|]. rewrite Hids. exact H3. }
+  destruct (i_type i) eqn:Ht; try discriminate; cbn [bind]; rewrite Ha, Hnode, He; cbn [bind];
+    cbn [orb]; rewrite Bool.orb_true_r, Hedge; reflexivity.
+Qed.
+
+Lemma step_row_exit_unknown s i e more :
+  (i_type i = THardExit \/ i_type i = TLooseExit) -> i_inc i = true -> i_edges i = e :: more ->
+  ie_from e <> [] -> str_eqb (ie_from e) s_start = false -> ids_get (f_ids s) (ie_from e) = None ->
+  step_row s i = Err EEdgeUnknownRow.
+Proof.
+  intros Ht Hi He H1 H2 H3. unfold step_row. rewrite Hi. cbn [negb].
+  destruct Ht as [Ht|Ht]; rewrite Ht, He; cbn [foldM]; unfold add_row_edge;
+    rewrite edge_source_unknown by assumption; reflexivity.
+Qed.
+
+Lemma step_row_noop_unknown s i e more :
+  i_type i = TNoOp -> i_inc i = true -> i_edges i = e :: more ->
+  ie_from e <> [] -> str_eqb (ie_from e) s_start = false -> ids_get (f_ids s) (ie_from e) = None ->
+  step_row s i = Err EEdgeUnknownRow.
+Proof.
+  intros Ht Hi He H1 H2 H3. unfold step_row. rewrite Hi. cbn [negb]. rewrite Ht.
+  unfold parse_noop. rewrite He. cbn [bind]. rewrite edge_source_unknown by assumption. reflexivity.
+Qed.
+
+Theorem detect_edge_from_unknown_row fuel wb dm d t0 p r s bt ghost e0 more :
+  compile fuel wb dm = Ok d ->
+  nth_error (rows_of wb t0) p = Some r ->
+  (is_node_type (r_type r) = true \/ r_type r = THardExit \/ r_type r = TLooseExit \/ r_type r = TNoOp) ->
+  r_edges r = e0 :: more ->
+  evaluated_at fuel wb dm t0 p s bt ->
+  strip ghost <> [] -> str_eqb (strip ghost) s_start = false -> ids_get (f_ids s) (strip ghost) = None ->
+  compile fuel (set_row wb t0 p (set_first_from r [Lit ghost])) dm = Err EEdgeUnknownRow.
+Proof.
+  intros Hok Hr Ht He Hev H1 H2 H3.
+  destruct (evaluated_ok _ _ _ _ _ _ _ _ _ Hok Hr Hev) as (Hinc & i & st & Hi & Hst).
+  pose proof Hi as Hi0.
+  apply instantiate_some in Hi as (_ & id & es & m & l & Hid & Hes & Hm & Hl & Hieq).
+  apply (row_fault_fatal fuel wb dm t0 p r (set_first_from r [Lit ghost]) s bt); try assumption; try reflexivity.
+  unfold visit_row. rewrite instantiate_unfold. unfold set_first_from.
+  cbn [set_edges r_inc r_id r_edges r_main r_list r_type r_vars r_save r_objid r_noresp r_url r_headers r_dsheet r_drow r_targs].
+  rewrite Hinc, Hid, He.
+  (* the edges of the injected row *)
+  rewrite He in Hes. cbn [mapM] in Hes.
+  destruct (render_edge (f_ctx s) e0) as [ie0|]; [|discriminate].
+  destruct (mapM (render_edge (f_ctx s)) more) as [es'|] eqn:Emore; [|discriminate].
+  injection Hes as <-.
+  cbn [mapM]. unfold render_edge at 1. cbn [e_from e_cond]. rewrite render_lit, Emore, Hm, Hl.
+  cbn [i_type].
+  set (e' := mkIE (strip ghost) (e_cond e0)).
+  set (i' := mkI (r_type r) id (e' :: es') true m l (r_vars r) (r_save r) (r_objid r) (r_noresp r)
+                 (r_url r) (r_headers r) (r_dsheet r) (r_drow r) (r_targs r)).
+  assert (Hstep : step_row s i' = Err EEdgeUnknownRow).
+  { destruct Ht as [Hn|[Hx|[Hx|Hx]]].
+    - (* node row: action and node of the valid row *)
+      unfold visit_row in Hst. rewrite Hi0 in Hst. subst i. cbn [i_type] in Hst.
+      assert (Hs : exists s', step_row s (mkI (r_type r) id (ie0 :: es') true m l (r_vars r) (r_save r) (r_objid r)
+                                            (r_noresp r) (r_url r) (r_headers r) (r_dsheet r) (r_drow r) (r_targs r)) = Ok s').
+      { destruct (r_type r); try discriminate;
+          (match type of Hst with (match ?X with Ok _ => _ | Err _ => _ end) = _ => destruct X as [s'|]; [eauto|discriminate] end). }
+      destruct Hs as [s' Hs].
+      apply step_row_node_inv in Hs as (Ha & s1 & x & Hnode); [|exact Hn|reflexivity].
+      apply (step_row_node_unknown s i' e' es' s1 x); try reflexivity; try assumption.
+    - apply (step_row_exit_unknown s i' e' es'); try reflexivity; try assumption. left. exact Hx.
+    - apply (step_row_exit_unknown s i' e' es'); try reflexivity; try assumption. right. exact Hx.
+    - apply (step_row_noop_unknown s i' e' es'); try reflexivity; try assumption. }
+  fold e'. fold i'.
+  destruct Ht as [Hn|[Hx|[Hx|Hx]]].
+  - destruct (r_type r); try discriminate; rewrite Hstep; reflexivity.
+  - rewrite Hx in *. rewrite Hstep. reflexivity.
+  - rewrite Hx in *. rewrite Hstep. reflexivity.
+  - rewrite Hx in *. rewrite Hstep. reflexivity.
 Qed.
